@@ -583,6 +583,14 @@ pub(crate) fn get_net_dependencies(ast_item: &dyn Dependencies, is_scope: bool) 
     result
 }
 
+/// What a function body still needs, seen from outside the function: every dependency has crossed one more function boundary.
+pub(crate) fn crossing_function_boundary(mut dependencies: Vec<Dependency>) -> Vec<Dependency> {
+    for dependency in &mut dependencies {
+        dependency.increment_cycle();
+    }
+    dependencies
+}
+
 pub(crate) trait Dependencies {
     /// This method expresses all new variables and identities created by an AST node.
     /// Identities supplied by a parent can be consumed by child AST nodes, but not the
